@@ -151,7 +151,7 @@ func (in *Interp) dispatch(s *State, th *Thread, f *Frame, c *callee, at ssa.Ins
 			return nil
 		}
 	}
-	if tgt, ok := in.cfg.Redirect[name]; ok {
+	if tgt, ok := in.cfg.Redirect[name]; ok && !(f.fn.Pkg == in.rtPkg && strings.HasPrefix(f.fn.Name(), "utf8")) {
 		nf := in.rtPkg.Func(tgt)
 		if nf == nil {
 			in.unsup("redirect target verifrt.%s missing", tgt)
